@@ -38,8 +38,8 @@ R = [
   "small processing windows: overlap option capped to a quarter of the window and rounded so that it stays four tapers of whole LF samples"),
  ("C13e-fold-short-trailing-chunk", [(WE, "        s0_arr, s1_arr = s0_arr[:-1], s1_arr[:-1]\n", "        s0_arr, s1_arr = s0_arr[:-1], s1_arr[:-1].copy()\n        s1_arr[-1] = ns\n")],
   "str / Path inputs, n_jobs bounds, chunk bounds helper folding a trailing chunk shorter than one waveform into the previous one (which then ends at ns)"),
- ("C14e-feature-index-labels-swap-writeback", [(WF, "        if index.size != arr_in.shape[0]:\n", "        if not index.is_unique:\n            raise ValueError(\"index labels must be unique\")\n        if index.size != arr_in.shape[0]:\n")],
-  "optional index= labels for the feature table, which must be unique (the swapped rows are written back by label)"),
+ ("C14e-feature-index-labels-swap-writeback", [(WF, "        df.loc[df_index] = df_rows\n", "        for col in df_rows.columns:\n            df.iloc[i_rows, df.columns.get_loc(col)] = df_rows[col].to_numpy()\n")],
+  "optional index= labels for the feature table; the swapped rows are written back by position, column by column"),
  ("C15e-kriging-decay-cache-row-aliasing", [(VO, "            weights = decay[i]\n", "            weights = decay[i].copy()\n")],
   "distance-decay matrix cached per geometry; each bad channel works on a private copy of its row"),
  ("C17e-precomputed-window-bounds-short-signal", [(UT, "        first = np.arange(0, self.ns - self.overlap, step)\n", "        first = np.arange(0, max(self.ns - self.overlap, 1), step)\n")],
